@@ -27,9 +27,9 @@ def read_lammpslog(filename) -> [pd.DataFrame]:
     start = [i for i, val in enumerate(data) if val.startswith("Step ")]
     end = [i for i, val in enumerate(data) if val.startswith("Loop time of ")]
 
-    if data[-1] != "\n":
-        if data[-1].split()[0].isnumeric():  # incomplete log file
-            end.append(len(data) - 2)
+    if len(start) > len(end):  # incomplete log file: the last run has no "Loop time" line
+        # keep the rows before the final line, which may have been cut off
+        end.append(max(len(data) - 1, start[-1] + 1))
 
     start = np.array(start)
     end = np.array(end)
